@@ -213,13 +213,13 @@ fold_h!(fold_3x3x3, 3, 27, [3, 3, 3], 30);
 // @harness props=C05 tier=thorough group=f64 bounds=shape=[3,2,4],cells=0..7,fill={nan,0,-1,inf} timeout=1200
 fold_h!(fold_3x2x4, 3, 24, [3, 2, 4], 27);
 
-// @harness props=C05 tier=thorough group=f64 bounds=shape=[1,2,1,3],cells=0..7,fill={nan,0,-1,inf} timeout=1200
+// @harness props=C05 tier=quick group=f64 bounds=shape=[1,2,1,3],cells=0..7,fill={nan,0,-1,inf} timeout=1200
 fold_h!(fold_1x2x1x3, 4, 6, [1, 2, 1, 3], 9);
 
 // @harness props=C05 tier=thorough group=f64 bounds=shape=[2,3,2,2],cells=0..7,fill={nan,0,-1,inf} timeout=1200
 fold_h!(fold_2x3x2x2, 4, 24, [2, 3, 2, 2], 27);
 
-// @harness props=C05 tier=thorough group=f64 bounds=shape=[3,1,2,2],cells=0..7,fill={nan,0,-1,inf} timeout=1200
+// @harness props=C05 tier=quick group=f64 bounds=shape=[3,1,2,2],cells=0..7,fill={nan,0,-1,inf} timeout=1200
 fold_h!(fold_3x1x2x2, 4, 12, [3, 1, 2, 2], 15);
 
 //@@END FOLD_CASES@@
@@ -1121,6 +1121,46 @@ macro_rules! stat_2d_h {
 stat_2d_h!(stat_def_2d_2x3, 2, 3, 6);
 // @harness props=C06 tier=quick group=f64 bounds=3x3,cells=0..3,tolerance=1e-9 timeout=1800
 stat_2d_h!(stat_def_2d_3x3, 3, 3, 9);
+/// S (segregating sites) on any shape: every cell but the first (no population carries ALT) and
+/// the last (every population is fixed for ALT) - in particular the mixed corners of a joint
+/// spectrum (fixed differences) count, and length-1 axes change nothing
+fn stat_s_case<const R: usize, const N: usize>(shape: [usize; R]) {
+    let d: [u8; N] = small::<N>(4);
+    let scs = scs_of(shape, &d);
+    let mut s = 0u32;
+    let mut i = 1;
+    while i + 1 < N {
+        s += d[i] as u32;
+        i += 1;
+    }
+    assert!(scs.segregating_sites() == s as f64);
+    kani::cover!(N < 3 || (s > 0 && d[0] > 0), "non-trivial");
+    core::mem::forget(scs);
+}
+
+macro_rules! stat_s_h {
+    ($name:ident, $r:literal, $n:literal, $shape:expr) => {
+        #[kani::proof]
+        #[kani::unwind(18)]
+        fn $name() {
+            stat_s_case::<$r, $n>($shape)
+        }
+    };
+}
+
+// @harness props=C06 tier=quick group=f64 bounds=2x3,cells=0..3 timeout=900
+stat_s_h!(stat_def_s_2x3, 2, 6, [2, 3]);
+// @harness props=C06 tier=quick group=f64 bounds=3x3,cells=0..3 timeout=900
+stat_s_h!(stat_def_s_3x3, 2, 9, [3, 3]);
+// @harness props=C06 tier=quick group=f64 bounds=2x2x2,cells=0..3 timeout=900
+stat_s_h!(stat_def_s_2x2x2, 3, 8, [2, 2, 2]);
+// @harness props=C06 tier=quick group=f64 bounds=1x3,cells=0..3 timeout=900
+stat_s_h!(stat_def_s_1x3, 2, 3, [1, 3]);
+// @harness props=C06 tier=quick group=f64 bounds=3x1x2,cells=0..3 timeout=900
+stat_s_h!(stat_def_s_3x1x2, 3, 6, [3, 1, 2]);
+// @harness props=C06 tier=quick group=f64 bounds=1x1,cells=0..3 timeout=900
+stat_s_h!(stat_def_s_1x1, 2, 1, [1, 1]);
+
 /// KING / R0 / R1 on 3x3: ratios of the two-individual genotype-pair counts (Waples et al. 2019);
 /// compared as numerator/denominator cross-products so that no division is needed in the oracle.
 fn ratio_is(v: f64, num: i32, den: i32) -> bool {
